@@ -31,7 +31,10 @@ def alphabet(rows=(0, 1), nondict=5, idx=(-1, 0, 1, 5), v3row=None):
         ops.append(['set', 0, v3row])
     ops.append(['set', 5, nondict])
     ops += [['extend', [rows[0], rows[1]]], ['extend', [rows[1]]], ['extend', [rows[1], nondict, rows[0]]], ['extend', []],
-            ['iadd', [rows[0]]], ['iadd', [rows[1], rows[1]]]]
+            ['iadd', [rows[0]]], ['iadd', [rows[1], rows[1]]],
+            # one-shot iterables: a list takes any iterable
+            ['extend', [rows[0], rows[1]], 'gen'], ['extend', [rows[1]], 'iter'], ['iadd', [rows[0]], 'map'],
+            ['extend', [rows[1], rows[0]], 'tuple'], ['iadd', [rows[1], rows[0]], 'reversed'], ['extend', [rows[0], nondict], 'gen']]
     for i in idx:
         ops.append(['del', i])
     ops += [['delslice', 0, 1, None], ['delslice', 1, None, None], ['delslice', None, None, 2], ['delslice', 0, 0, None],
